@@ -6,6 +6,7 @@ import (
 	"encoding/hex"
 	"fmt"
 	"math/rand"
+	"strings"
 	"sync"
 	"sync/atomic"
 
@@ -25,6 +26,7 @@ import (
 type countingDS struct {
 	ds.Datastore
 	gets, puts int64
+	failPut    func(k ds.Key) bool // injected write failure
 }
 
 func (c *countingDS) Get(ctx context.Context, k ds.Key) ([]byte, error) {
@@ -34,6 +36,9 @@ func (c *countingDS) Get(ctx context.Context, k ds.Key) ([]byte, error) {
 
 func (c *countingDS) Put(ctx context.Context, k ds.Key, v []byte) error {
 	atomic.AddInt64(&c.puts, 1)
+	if c.failPut != nil && c.failPut(k) {
+		return fmt.Errorf("injected datastore write failure")
+	}
 	return c.Datastore.Put(ctx, k, v)
 }
 
@@ -178,6 +183,41 @@ func CheckC20(run *evid.Run) {
 				log("create(%s)@%d", id, who)
 				for w := range inst {
 					probe(id, w)
+				}
+			case x < 40 && len(ids) < nIDs:
+				// a creation whose datastore write fails: it must fail and leave NO trace on any instance
+				id := fmt.Sprintf("id-%d-failed-%d", i, op)
+				d.failPut = func(k ds.Key) bool { return k == ds.NewKey(id) }
+				_, err := inst[who].CreateKey(ctx, id)
+				d.failPut = nil
+				log("create-with-failing-write(%s)@%d", id, who)
+				run.Count("creations_with_injected_write_failure", 1)
+				if err == nil {
+					run.Violate("C20/createkey-ignored-write-failure", det(), wit(), "CreateKey(%q) returned no error although the datastore write failed", id)
+				}
+				for w := range inst {
+					probe(id, w) // never created: must be absent everywhere
+				}
+			case x < 44 && len(ids) > 0:
+				// ids are case sensitive: a case variant of a created id was never created
+				base := ids[rng.Intn(len(ids))]
+				variant := strings.ToUpper(base)
+				if _, created := ref[variant]; !created {
+					log("probe-case-variant(%s)@%d", variant, who)
+					run.Count("case_variant_probes", 1)
+					probe(variant, who)
+					if rng.Intn(2) == 0 {
+						// ... and creating it gives a key of its own
+						p, err := inst[who].CreateKey(ctx, variant)
+						if err == nil {
+							ref[variant] = rawKey(p)
+							ids = append(ids, variant)
+							for w := range inst {
+								probe(variant, w)
+								probe(base, w)
+							}
+						}
+					}
 				}
 			case x < 60 && len(ids) > 0:
 				id := ids[rng.Intn(len(ids))]
